@@ -4,6 +4,7 @@ import Driver.Frame
 import Driver.TimeSeries
 import Driver.EvalIndex
 import Driver.Reindex
+import Driver.Fortran
 /-
 Correspondence driver.  `.lake/build/bin/fsicdrv < requests > replies`  (or `lake env lean --run Main.lean`)
 Each request line is `<kind>\t<json>`; each reply is one line (`!<message>` on a malformed request).
@@ -15,10 +16,10 @@ def allHandlers : List (String × (Json → Except String String)) :=
   Drv.Solver.handlers2 ++
   Drv.Linker.handlers ++
   Drv.Frame.handlers ++
-
   Drv.TimeSeries.handlers ++
   Drv.EvalIndex.handlers ++
-  Drv.Reindex.handlers
+  Drv.Reindex.handlers ++
+  Drv.Fortran.handlers
 
 def dispatch (kind : String) (j : Json) : Except String String :=
   match allHandlers.lookup kind with
